@@ -140,17 +140,23 @@ def whole_case(arg):
         W('L1b.c', 'int g_1(void){return 100;}\n')
         W('L2a.c', 'int f_2(void){return 2;}\n')
         W('L2b.c', 'int g_2(void){return 200;}\n')
-        W('S.c', 'int s(void){return 5;}\n')
+        W('S.c', 'int f_3(void);int s(void){return 5;}'
+          'int s3(void){return f_3();}\n')
+        # a further static library that itself depends on (plain) L1: the
+        # shared library lists the whole archive AND gets the plain one
+        # forwarded - the archive must still be taken whole
+        W('L3.c', 'int f_1(void);int f_3(void){return f_1()+10;}\n')
         W('main.c', '#include <stdio.h>\nint f_1(void);int g_1(void);'
-          'int f_2(void);int g_2(void);'
+          'int f_2(void);int g_2(void);int f_3(void);'
           'int s(void);int main(void){printf("%d\\n", f_1()+g_1()+f_2()+'
-          'g_2()+s());return 0;}\n')
+          'g_2()+s()+s3());return 0;}\n')
         W('main2.c', 'int main(void){return 0;}\n')
         W('build.bfg', "project('p')\n"
           "L1 = static_library(%r, ['L1a.c', 'L1b.c'])\n"
           "L2 = static_library(%r, ['L2a.c', 'L2b.c'])\n"
+          "L3 = static_library('L3', ['L3.c'], libs=[L1])\n"
           "S = shared_library(%r, ['S.c'], libs=[whole_archive(L1), "
-          "whole_archive(L2)])\n"
+          "whole_archive(L2), L3])\n"
           "executable(%r, ['main.c'], libs=[S])\n"
           "executable(%r, ['main2.c'], libs=[whole_archive(L1), "
           "whole_archive(L2)])\n" % (
@@ -175,7 +181,7 @@ def whole_case(arg):
                 val = int(out.strip())
             except ValueError:
                 val = -1
-            return {'ev': 'RunRaw', 'exit': rc, 'out': val, 'want': 308,
+            return {'ev': 'RunRaw', 'exit': rc, 'out': val, 'want': 319,
                     'note': out[-200:] if rc else ''}
         events.append(runprog(bld))
         rc, out = run(['nm', os.path.join(bld, at(0, 'prog2'))], env=env)
